@@ -87,6 +87,10 @@ def build_worker(scratch, variant):
             ov = os.path.join(scratch, "overlay_%s.json" % "_".join(parts[1:]))
             json.dump({"Replace": {os.path.join(HARNESS, "zoo14", "types_gen.go"): gen}}, open(ov, "w"))
             cmd += ["-overlay", ov]
+    if os.environ.get("VERIF_COVER"):
+        # development aid (tools/coverage.sh): statement coverage of go-json under the checks, to find
+        # code no monitor ever executes. Workers write their counters to $GOCOVERDIR at exit.
+        cmd += ["-cover", "-coverpkg=all"]
     alt = os.environ.get("VERIF_REPO_DIR")
     if alt:
         # development aid (tools/mutant_run.sh --tree): build against another checkout of go-json (a
